@@ -727,6 +727,40 @@ pub fn run_property(prop: &Property, cfg: &Cfg) -> i32 {
         }
     }
 
+    // 1b. committed regression inputs: shrunk counterexamples that once exposed a (seeded or real)
+    // defect; on a tree where the property holds every one of them passes
+    let mut regression_replays = 0u64;
+    let regdir = verif_root().join("regressions").join(prop.id);
+    if let Ok(rd) = std::fs::read_dir(&regdir) {
+        let mut files: Vec<PathBuf> = rd.filter_map(|e| e.ok()).map(|e| e.path()).filter(|p| p.extension().is_some_and(|x| x == "json")).collect();
+        files.sort();
+        for path in files {
+            let rf: ReplayFile = match std::fs::read_to_string(&path)
+                .map_err(|e| e.to_string())
+                .and_then(|t| serde_json::from_str(&t).map_err(|e| e.to_string()))
+            {
+                Ok(r) => r,
+                Err(e) => {
+                    println!("cannot load regression input {}: {e}", path.display());
+                    return 2;
+                }
+            };
+            match replay_one(prop, &rf) {
+                Err(e) => {
+                    println!("cannot replay regression input {}: {e}", path.display());
+                    return 2;
+                }
+                Ok(res) => {
+                    regression_replays += 1;
+                    if let Outcome::Fail(reason) = res.outcome {
+                        println!("FAIL property={} regression input {} reason: {}", prop.id, path.display(), reason);
+                        violations.push(("regression".into(), path));
+                    }
+                }
+            }
+        }
+    }
+
     // 2. search
     let mut reports = Vec::new();
     for part in &prop.parts {
@@ -795,6 +829,7 @@ pub fn run_property(prop: &Property, cfg: &Cfg) -> i32 {
             "excluded_known": reports.iter().map(|r| r.excluded_known).sum::<u64>(),
             "known_findings_seen": known_open_ids,
             "feature_chrono": cfg!(feature = "chrono"),
+            "regression_inputs_replayed": regression_replays,
         },
         "assumptions": prop.assumptions,
         "wall_s": (t0.elapsed().as_secs_f64() * 1000.0).round() / 1000.0,
